@@ -90,7 +90,13 @@ def run(res, programs, tier):
             polarity.rule(res, P, P.name, "R10.4")
             from . import halftest
             halftest.rule(res, P, P.name, "R10.5")
+            from . import pow2base
+            pow2base.rule(res, P, P.name, "R10.8")
     _r19_6(res, programs)
+    from . import c01
+    for P in programs:
+        if "dashu_int" in P.units:
+            c01.r01_6(res, P, P.name)      # shared: the portable back-end exists only in the force_bits / non-x86 configurations
     cfgs_seen = sorted({p.name for p in sub})
     new = set(res.violations) - before
     known = _known_keys()
@@ -396,3 +402,4 @@ LEVEL = LEVEL + ' Also the bound-polarity and half-test pairing rules are re-eva
 TECHNIQUE = 're-evaluation of every structural rule on the MIR of five build configurations (debug, release, 32-bit words, no_std, all features); CFG-based debug-region effect analysis; serializer / deserializer who-may-construct rules; cfg-sibling agreement of public item and impl sets'
 LEVEL = LEVEL + ' (R06.4, R10.5, R05.4a/R05.6 of the all-features build are re-evaluated here too.)'
 LEVEL = LEVEL + ' (R19.6) usize::BITS is used only inside impls for usize, and every named *WORD_BITS* constant equals dashu_int::primitive::WORD_BITS, so no kernel takes the host pointer width for the word width.'
+LEVEL = LEVEL + ' (R01.6, shared with C01) the carry primitives of the portable arch back-end (built only with force_bits or on non-x86 targets).'
